@@ -2,7 +2,8 @@ use crate::framework::Check;
 
 pub mod c04;
 pub mod c06;
+pub mod c08;
 
 pub fn all() -> Vec<&'static dyn Check> {
-    vec![&c04::C04, &c06::C06]
+    vec![&c04::C04, &c06::C06, &c08::C08]
 }
